@@ -160,6 +160,7 @@ def run(tier):
     run.assumptions = ['monitor wrappers see every insertion because all builders go through add_clause / add_constraint / _add_variable_group']
     T = 300 if tier == 'quick' else 1200
     sel = [n for n in names if n.startswith('h_e_hist2_')] + ([n for n in names if n.startswith('h_e_hist3_')] if tier != 'quick' else ['h_e_hist3_1', 'h_e_hist3_5', 'h_e_hist3_11'])
+    sel.append('h_e_twice')
     conds = [xengine.Cond('c10', n, T, symbolic=False) for n in sel]
     part = xengine.run_conditions('c10.x', conds)
     from cnfgen.formula import basecnf, baseopb, variables
